@@ -3,10 +3,11 @@ import re
 from vlib import core, drivers
 
 PROP = 'C14'
-MODULES = ['PistacheModel.Props.C14', 'PistacheModel.Props.C14Timeouts']
+MODULES = ['PistacheModel.Props.C14', 'PistacheModel.Props.C14Timeouts', 'PistacheModel.Props.C14Read']
 THEOREMS = ['Pistache.Parser.Props.' + t for t in ('within_limit_never_413', 'over_limit_is_413')] + \
            ['Pistache.Timeouts.Props.' + t for t in ('in_time_never_expires', 'in_time_served', 'late_head_expires', 'late_body_expires', 'tick_after_deadline', 'stalled_head_times_out',
-                                                     'source_period_bounds', 'stalled_head_times_out_within_a_second', 'scan_each', 'scan_order_irrelevant', 'stalled_among_busy', 'busy_among_stalled', 'scan_break_forgets')]
+                                                     'source_period_bounds', 'stalled_head_times_out_within_a_second', 'scan_each', 'scan_order_irrelevant', 'stalled_among_busy', 'busy_among_stalled', 'scan_break_forgets')] + \
+           ['Pistache.ReadDrain.Props.' + t for t in ('inv_run', 'unread_has_event', 'delivered_in_order', 'one_event_delivers_all', 'source_buffer_positive', 'bounded_reads_strand')]
 
 def hx(b):
     if isinstance(b, str): b = b.encode('latin-1')
